@@ -22,6 +22,14 @@
 #define NO_ASAN
 #endif
 
+/* the buffer list is only touched by the thread that holds the baton; keep
+ * ThreadSanitizer's attention on pixman */
+#if defined (SIM_VARIANT_TSAN)
+#define NO_TSAN __attribute__ ((no_sanitize ("thread")))
+#else
+#define NO_TSAN
+#endif
+
 void *__real_malloc (size_t);
 void  __real_free (void *);
 
@@ -29,7 +37,7 @@ static arena_buf_t *all_bufs;
 
 #define PAGE 4096u
 
-arena_buf_t *
+NO_TSAN arena_buf_t *
 arena_new (size_t size, int guarded, int flush_hi, unsigned misalign)
 {
     arena_buf_t *b = __real_malloc (sizeof *b);
@@ -111,7 +119,7 @@ arena_check (const arena_buf_t *b, long *where)
     return 0;
 }
 
-static void
+NO_TSAN static void
 release (arena_buf_t *b)
 {
     UNPOISON (b->slack_lo, b->slack_lo_n);
@@ -121,7 +129,7 @@ release (arena_buf_t *b)
     __real_free (b);
 }
 
-void
+NO_TSAN void
 arena_free (arena_buf_t *b)
 {
     arena_buf_t **pp;
@@ -130,7 +138,7 @@ arena_free (arena_buf_t *b)
     release (b);
 }
 
-void
+NO_TSAN void
 arena_free_all (void)
 {
     while (all_bufs)
@@ -141,7 +149,7 @@ arena_free_all (void)
     }
 }
 
-arena_buf_t *
+NO_TSAN arena_buf_t *
 arena_find (const void *p)
 {
     arena_buf_t *b;
